@@ -282,7 +282,10 @@ def run_ops(fa, schema, data, seed, rereads, skip_generate=False, raw=None):
             if names:
                 short = "\n".join(json.dumps({k: v for k, v in doc.items() if k not in names}) for doc in docs)
                 filled = obs(lambda: list(fa.json_reader(io.StringIO(short), schema)))
-        return docs, list(fa.json_reader(io.StringIO(txt), schema)), filled
+        # the same text read with a reader schema that defines the same names differently
+        # (a defaulted field added to every record, int fields widened)
+        evolved = obs(lambda: list(fa.json_reader(io.StringIO(txt), schema, reader_schema=_reader_evolved(raw)))) if raw is not None else None
+        return docs, list(fa.json_reader(io.StringIO(txt), schema)), filled, evolved
 
     out["json"] = obs(jsonrt)
 
@@ -365,6 +368,28 @@ def run_ops(fa, schema, data, seed, rereads, skip_generate=False, raw=None):
     # tens of seconds before it blows the stack: not exercised here
     out["generate"] = ("ok", "skipped: recursive schema") if skip_generate else obs(gen)
     return out
+
+
+def _reader_evolved(js):
+    def walk(n):
+        if isinstance(n, list):
+            return [walk(b) for b in n]
+        if isinstance(n, dict):
+            out = dict(n)
+            t = n.get("type")
+            if t in ("record", "error"):
+                out["fields"] = [dict(f, type="long" if f["type"] == "int" else walk(f["type"])) for f in n.get("fields", [])]
+                if not any(f["name"] == "zz_added" for f in out["fields"]):
+                    out["fields"].append({"name": "zz_added", "type": "int", "default": 7})
+            elif t == "array":
+                out["items"] = walk(n["items"])
+            elif t == "map":
+                out["values"] = walk(n["values"])
+            elif isinstance(t, (dict, list)):
+                out["type"] = walk(t)
+            return out
+        return n
+    return walk(copy.deepcopy(js))
 
 
 def _tuplify(d):
